@@ -579,10 +579,49 @@ def fnvAccess (h : UInt64) : Access → UInt64
   | .read a l ok => fnvByte (fnvNat (fnvInt (fnvByte h 0) a) l) (if ok then 1 else 0)
   | .write a d ok => fnvBytes (fnvByte (fnvNat (fnvInt (fnvByte h 1) a) d.length) (if ok then 1 else 0)) d
 
-/-- final answer of a case: the whole device image and the log digest -/
-def digest (st : St FB) : String :=
-  let hl := st.log.foldl fnvAccess fnvInit
-  s!"mem={bytesToHex st.dev.mem} log={st.log.length}:{natToHex 16 hl.toNat}"
+/-! ### What of the access log is compared
+
+Per call: the device WRITES in the order they were issued (fan-out order and the partial effect
+of a failing write are clauses of C03), followed by the device READS as a sorted multiset (no
+clause fixes the order in which independent sources - address elements, length, variables - are
+evaluated).  The reads of a call that fails are not compared (which sources were consulted
+before the failing one is not fixed either), nor are the reads of access queries (which
+controlling nodes a query consults before it can answer is not fixed by C18). -/
+
+def readKeyLe (a b : Access) : Bool :=
+  match a, b with
+  | .read a1 l1 o1, .read a2 l2 o2 =>
+    a1 < a2 || (a1 == a2 && (l1 < l2 || (l1 == l2 && (!o1 || o2))))
+  | _, _ => true
+
+def isWriteAcc : Access → Bool
+  | .write .. => true
+  | _ => false
+
+def canonAccesses (keepReads : Bool) (seg : List Access) : List Access :=
+  seg.filter isWriteAcc ++ (if keepReads then (seg.filter (fun a => !isWriteAcc a)).mergeSort readKeyLe else [])
+
+def isAccessQuery : Req FB → Bool
+  | .isReadable _ | .isWritable _ | .isImplemented _ | .isAvailable _ | .isLocked _ => true
+  | _ => false
+
+/-- Answers of `is_readable` / `is_writable` are compared as "granted" / "not granted": a
+refusal may be `false`, an error or a panic (which of them a query gives when one controlling
+node says no and the evaluation of another fails or panics depends on the order of the conjuncts,
+which C18 does not fix; a panic needs a malformed description - negative register length - or an
+arithmetic overflow in a formula, both outside C18); such a panic does not end the case (read-class
+calls cannot change the stores).  For the controller readings of enumeration entries the error
+variant is not compared.
+The implementation's error variants are judged by the harness against the expected classes.
+The model-only `outOfFuel` stays visible. -/
+def showAccessRes (req : Req FB) (r : Res Err (Val FB)) : String :=
+  match req, r with
+  | _, .err .outOfFuel => "err outOfFuel"
+  | .isReadable _, .ok (.bool false) | .isWritable _, .ok (.bool false) => "no"
+  | .isReadable _, .err _ | .isWritable _, .err _ => "no"
+  | .isReadable _, .panic | .isWritable _, .panic => "no"
+  | _, .err _ => "err *"
+  | _, r => showRes r
 
 /-! ### State and loop -/
 
@@ -591,8 +630,9 @@ structure DState where
   nan : NanCfg := {}
   nodes : Array (Option (Node FB Ex)) := #[]
   st : St FB := ⟨[], ⟨[], 0, 0⟩, []⟩
-  /-- running digest of the access log (so that every answer pins the log so far) -/
+  /-- running digest of the compared part of the access log (so that every answer pins the log so far) -/
   logHash : UInt64 := fnvInit
+  logCount : Nat := 0
   dead : Bool := false
 
 def DState.ctx (d : DState) : Ctx FB Ex :=
@@ -649,13 +689,18 @@ def handle (spec : Bool) (d : DState) : List String → DState × String
       let sfx := specSuffix spec d req
       match exec d.ctx (FUEL + 1) req d.st with
       | (r, st') =>
-        let dead := match r with | .panic => true | _ => false
-        let lh := (st'.log.drop d.st.log.length).foldl fnvAccess d.logHash
+        let rwQuery := match req with | .isReadable _ | .isWritable _ => true | _ => false
+        let dead := match r with | .panic => !rwQuery | _ => false
+        let succeeded := match r with | .ok _ => true | _ => false
+        let seg := canonAccesses (succeeded && !isAccessQuery req) (st'.log.drop d.st.log.length)
+        let lh := seg.foldl fnvAccess d.logHash
+        let lc := d.logCount + seg.length
         let mh := fnvBytes fnvInit st'.dev.mem
-        let pin := s!" L{st'.log.length}:{natToHex 8 (lh.toNat % 2 ^ 32)} M{natToHex 8 (mh.toNat % 2 ^ 32)}"
-        ({ d with st := st', dead := dead, logHash := lh }, showRes r ++ sfx ++ pin)
+        let pin := s!" L{lc}:{natToHex 8 (lh.toNat % 2 ^ 32)} M{natToHex 8 (mh.toNat % 2 ^ 32)}"
+        let shown := if isAccessQuery req then showAccessRes req r else showRes r
+        ({ d with st := st', dead := dead, logHash := lh, logCount := lc }, shown ++ sfx ++ pin)
     | none => (d, "bad-op")
-  | ["end"] => (d, digest d.st)
+  | ["end"] => (d, s!"mem={bytesToHex d.st.dev.mem} log={d.logCount}:{natToHex 16 d.logHash.toNat}")
   | ["nancfg", prefs, un, a, b, c, e, f, g] =>
     match prefs.toList.map (· == 'L'), un.toList.map (· == 'Q'), hexToNat a, hexToNat b, hexToNat c, hexToNat e,
         hexToNat f, hexToNat g with
